@@ -2,7 +2,10 @@
 // calls into mamba.
 package model
 
-import "sort"
+import (
+	"fmt"
+	"sort"
+)
 
 // G is a small simple graph (n <= 32; canonical codes only for n <= 11) as adjacency bit masks.
 type G struct {
@@ -446,4 +449,109 @@ func InducedFree(h *G) func(g *G) bool {
 		}
 		return !rec(0)
 	}
+}
+
+// ---- graphs too wide for Code (n >= 12): signature buckets + pairwise isomorphism test ----------
+
+func wideKey(g *G, v int) string {
+	n := g.N
+	k := invariantKey(g, v)
+	// triangles through v
+	tri := 0
+	for u := 0; u < n; u++ {
+		if g.Has(u, v) {
+			tri += popcount(g.Adj[u] & g.Adj[v])
+		}
+	}
+	k = append(k, -1, tri/2, -1)
+	// sizes of the BFS layers around v
+	seen := uint32(1) << uint(v)
+	layer := seen
+	for layer != 0 {
+		var next uint32
+		for u := 0; u < n; u++ {
+			if layer>>uint(u)&1 == 1 {
+				next |= g.Adj[u]
+			}
+		}
+		next &^= seen
+		seen |= next
+		layer = next
+		k = append(k, popcount(layer))
+	}
+	return fmt.Sprint(k)
+}
+
+// WideSig is an isomorphism invariant (not complete): the sorted multiset of per-vertex keys.
+func WideSig(g *G) string {
+	ks := make([]string, g.N)
+	for v := range ks {
+		ks[v] = wideKey(g, v)
+	}
+	sort.Strings(ks)
+	return fmt.Sprint(g.N, g.M(), ks)
+}
+
+// Isomorphic decides isomorphism of a and b by backtracking over key-respecting bijections.
+func Isomorphic(a, b *G) bool {
+	n := a.N
+	if n != b.N || a.M() != b.M() {
+		return false
+	}
+	ka, kb := make([]string, n), make([]string, n)
+	for v := 0; v < n; v++ {
+		ka[v], kb[v] = wideKey(a, v), wideKey(b, v)
+	}
+	// order the vertices of a so that each (after the first of its component) has an earlier neighbour
+	order := make([]int, 0, n)
+	placed := uint32(0)
+	for len(order) < n {
+		best := -1
+		for v := 0; v < n; v++ {
+			if placed>>uint(v)&1 == 0 && a.Adj[v]&placed != 0 {
+				best = v
+				break
+			}
+		}
+		if best < 0 {
+			for v := 0; v < n; v++ {
+				if placed>>uint(v)&1 == 0 {
+					best = v
+					break
+				}
+			}
+		}
+		order = append(order, best)
+		placed |= 1 << uint(best)
+	}
+	img := make([]int, n)
+	used := uint32(0)
+	var rec func(i int) bool
+	rec = func(i int) bool {
+		if i == n {
+			return true
+		}
+		v := order[i]
+		for c := 0; c < n; c++ {
+			if used>>uint(c)&1 == 1 || ka[v] != kb[c] {
+				continue
+			}
+			ok := true
+			for j := 0; j < i && ok; j++ {
+				u := order[j]
+				ok = a.Has(u, v) == b.Has(img[u], c)
+			}
+			if !ok {
+				continue
+			}
+			used |= 1 << uint(c)
+			img[v] = c
+			if rec(i + 1) {
+				return true
+			}
+			used &^= 1 << uint(c)
+		}
+		return false
+	}
+	return rec(0)
 }
